@@ -750,3 +750,295 @@ def long_fixpoint_check():
     finally:
         shutil.rmtree(work, ignore_errors=True)
     return {"long_fixpoint_chain": n, "long_fixpoint_seconds": round(secs, 2)}, failures
+
+
+# ------------------------------------------------------------------ glue: the command line vs the model, problem files
+
+def glue_correspondence(kind, n, seed):
+    """The whole command `anthem verify --no-proof-search --save-problems DIR ...` against the model: task directories (the
+    correspondence corpus and generated tasks, written as files), every combination of --direction / --decomposition /
+    --no-simplify / --no-eq-break / --bypass-tightness / --formula-representation drawn per task, the files given as a
+    directory or one by one. The problem files the command writes must be, name by name and byte for byte, the problems the
+    model computes for the task that the real parsers read from those files with those flags; a refused task must be refused
+    by both. This ties the glue the in-process suites bypass (argument handling in procedures.rs, file roles, parsing of each
+    role, `Problem::to_file`) to the model.  kind = "external" | "strong".  Returns (stats, failures)."""
+    import sexp as sx
+    rng = random.Random(seed * 7919 + (1 if kind == "strong" else 2))
+    hb = VERIF / "harness" / "target" / "debug" / "verif-harness"
+    work = Path(tempfile.mkdtemp(prefix=f"glue_{kind}_", dir=str(VERIF / "work")))
+    failures, samples = [], []
+    n_ok = n_refused = n_unreadable = 0
+    try:
+        dirs = []
+        if kind == "external":
+            for i, l in enumerate((VERIF / "corpus" / "external.txt").read_text().splitlines()):
+                parts = [x.strip() for x in l.split(";;")]
+                if len(parts) != 6 or l.startswith("#"):
+                    continue
+                d = work / f"c{i}"
+                d.mkdir()
+                k, text = parts[1].split(":", 1)
+                (d / ("a_left.lp" if k.strip() == "prog" else "a_left.spec")).write_text(text.strip() + "\n")
+                (d / "b_right.lp").write_text(parts[2] + "\n")
+                (d / "c.ug").write_text(parts[3] + "\n")
+                if parts[4]:
+                    (d / "d.po").write_text(parts[4] + "\n")
+                dirs.append((d, "corpus:" + parts[0]))
+            subprocess.run([str(hb), "dump_ext", "--seed", str(seed), "--n", str(n), "--out", str(work / "gen")], check=False, timeout=300)
+            dirs += [(d, "generated:" + d.name) for d in sorted((work / "gen").glob("ext*"))]
+        else:
+            progs = [l.strip() for l in (VERIF / "corpus" / "programs.txt").read_text().splitlines() if l.strip() and not l.startswith("#")]
+            for i in range(0, len(progs) - 1, 2):
+                d = work / f"s{i}"
+                d.mkdir()
+                (d / "a_left.lp").write_text(progs[i] + "\n")
+                (d / "b_right.lp").write_text(progs[i + 1] + "\n")
+                dirs.append((d, "corpus:" + progs[i]))
+            subprocess.run([str(hb), "dump_ext", "--seed", str(seed + 1), "--n", str(n), "--out", str(work / "gen")], check=False, timeout=300)
+            for d in sorted((work / "gen").glob("ext*")):
+                # two programs of a generated task (a specification on the left is replaced by the right program)
+                if not (d / "a_left.lp").exists():
+                    (d / "a_left.lp").write_text((d / "b_right.lp").read_text())
+                for x in ("a_left.spec", "c.ug", "d.po"):
+                    (d / x).unlink(missing_ok=True)
+                dirs.append((d, "generated:" + d.name))
+        p = subprocess.run([str(hb), "task_sexp"] + [str(d) for d, _ in dirs], stdout=subprocess.PIPE, text=True, timeout=600)
+        sexps = p.stdout.splitlines()
+        if len(sexps) != len(dirs):
+            return {"evaluations": 0, "distinct_nontrivial": 0}, [{"what": "the harness could not read the task directories", "stdout": p.stdout[-500:]}]
+        reqs, runs = [], []
+        # every corpus task runs twice: with drawn flags and with the complementary ones (each boolean flipped, the other
+        # decomposition, another direction), so that every flag is seen in both positions on every hand-written task
+        todo = []
+        for (d, origin), s in zip(dirs, sexps):
+            todo.append((d, origin, s, False))
+            if origin.startswith("corpus:"):
+                todo.append((d, origin, s, True))
+        last = None
+        for d, origin, s, complement in todo:
+            if not s.startswith("(" + ("ext " if kind == "external" else "strong ")):
+                n_unreadable += 1
+                continue
+            if complement and last:
+                dec, dirn, rep, simplify, brk, bypass = last
+                dec = "independent" if dec == "sequential" else "sequential"
+                dirn = {"universal": "forward", "forward": "backward", "backward": "universal"}[dirn]
+                simplify, brk, bypass = not simplify, not brk, (kind == "external" and not bypass)
+            else:
+                dec = rng.choice(["independent", "sequential"])
+                dirn = rng.choice(["universal", "universal", "forward", "backward"])
+                rep = "mu" if rng.random() < (0.5 if kind == "strong" else 0.05) else "tau-star"
+                simplify, brk, bypass = rng.random() < 0.5, rng.random() < 0.5, (kind == "external" and rng.random() < 0.25)
+            last = (dec, dirn, rep, simplify, brk, bypass)
+            out = d / ("out2" if complement else "out")
+            out.mkdir()
+            files = [str(d)] if (rng.random() < 0.5 and not complement) else [str(f) for f in sorted(d.iterdir()) if f.is_file()]
+            # explicit defaults are left out now and then (the default must be what the model is asked for)
+            cmd = ["verify", "--equivalence", kind, "--no-proof-search", "--save-problems", str(out)]
+            if not (dec == "sequential" and rng.random() < 0.3):
+                cmd += ["--decomposition", dec]
+            if not (dirn == "universal" and rng.random() < 0.3):
+                cmd += ["--direction", dirn]
+            if not (rep == "tau-star" and rng.random() < 0.5):
+                cmd += ["--formula-representation", rep]
+            cmd += ([] if simplify else ["--no-simplify"]) + ([] if brk else ["--no-eq-break"]) + (["--bypass-tightness"] if bypass else [])
+            cmd += files
+            b = lambda x: "true" if x else "false"
+            body = s[len("(ext "):-1] if kind == "external" else s[len("(strong "):-1]
+            if kind == "external":
+                reqs.append(f"(external_text {body} {dec} {dirn} {rep.replace('-', '_')} {b(bypass)} {b(simplify)} {b(brk)} 256)")
+            else:
+                reqs.append(f"(strong_text {body} {dec} {dirn} {rep.replace('-', '_')} {b(simplify)} {b(brk)} 256)")
+            runs.append((d, origin, cmd, out))
+        answers = _ask_driver(reqs)
+        for (d, origin, cmd, out), req, ans in zip(runs, reqs, answers):
+            pr = subprocess.run([str(ANTHEM)] + cmd, stdout=subprocess.PIPE, stderr=subprocess.PIPE, timeout=120, env=dict(os.environ, RUST_BACKTRACE="0"))
+            got = {f.stem: f.read_text(errors="replace") for f in sorted(out.glob("*.p"))}
+            shown = [c if not c.startswith(str(work)) else Path(c).name for c in cmd]
+            case = {"origin": origin, "command": shown, "files": {f.name: f.read_text(errors="replace") for f in sorted(d.iterdir()) if f.is_file()}}
+            try:
+                v = sx.parse(ans)
+            except Exception:
+                failures.append(dict(case, what="the model's answer does not parse", model=ans[:300]))
+                continue
+            if isinstance(v, list) and v and v[0] == "error" or v == ["error"]:
+                if pr.returncode == 0 or got:
+                    failures.append(dict(case, what="the model refuses this task, the command line accepted it", model=ans[:200], problems=sorted(got)))
+                else:
+                    n_refused += 1
+                continue
+            want = {}
+            for prob in v if isinstance(v, list) else []:
+                if isinstance(prob, list) and len(prob) == 2:
+                    want[prob[0][1]] = prob[1][1]
+            if pr.returncode != 0:
+                failures.append(dict(case, what="the command line refuses a task the model accepts", stderr=pr.stderr.decode("utf-8", "replace")[-600:], model_problems=sorted(want)))
+            elif sorted(got) != sorted(want):
+                failures.append(dict(case, what="problem names differ", command_line=sorted(got), model=sorted(want)))
+            else:
+                bad = [k for k in want if want[k] != got[k]]
+                if bad:
+                    failures.append(dict(case, what=f"problem {bad[0]} differs", command_line=got[bad[0]][:3000], model=want[bad[0]][:3000]))
+                else:
+                    n_ok += 1
+                    if len(samples) < 3:
+                        samples.append(f"{' '.join(shown[2:])} -> {len(got)} problem files identical to the model's")
+    finally:
+        shutil.rmtree(work, ignore_errors=True)
+    total = n_ok + n_refused + len(failures)
+    return {"evaluations": total, "distinct_nontrivial": n_ok, "samples": samples, "cli_tasks": total, "cli_tasks_with_identical_problems": n_ok,
+            "cli_tasks_refused_by_both": n_refused, "task_directories_unreadable": n_unreadable}, failures
+
+
+def glue_translate(withs, analyses, n, seed):
+    """`anthem translate --with W FILE` and `anthem analyze --property P FILE` on program files (the correspondence corpus
+    and the right-hand programs of generated tasks) against the model: the printed theory must be, byte for byte, the
+    model's translation printed by the model's printer (text -> model parser -> translation -> printer), a program the
+    model's `natural` refuses must be refused, the verdicts of the analyses must be the model's.  Ties the Translate and
+    Analyze arms of procedures.rs (which translation a flag selects, input from a file, the printing of a theory) to the
+    model.  Returns (stats, failures)."""
+    import sexp as sx
+    hb = VERIF / "harness" / "target" / "debug" / "verif-harness"
+    work = Path(tempfile.mkdtemp(prefix="glue_tr_", dir=str(VERIF / "work")))
+    failures, samples, n_ok = [], [], 0
+    try:
+        texts = [l.strip() for l in (VERIF / "corpus" / "programs.txt").read_text().splitlines() if l.strip() and not l.startswith("#")]
+        subprocess.run([str(hb), "dump_ext", "--seed", str(seed + 2), "--n", str(n), "--out", str(work / "gen")], check=False, timeout=300)
+        texts += [f.read_text() for f in sorted((work / "gen").glob("ext*/b_right.lp"))]
+        parsed = _ask_driver([sx.dump(["asp_parse", ("s", t)]) for t in texts])
+        progs = []
+        for t, a in zip(texts, parsed):
+            if a.startswith("(ok "):
+                progs.append((t, a[4:-1]))
+        ops = {"tau-star": "tau_star", "mu": "mu", "natural": "natural"}
+        reqs = [f"({ops[w]} {p})" for _, p in progs for w in withs] + [f"({'is_tight' if a == 'tightness' else 'is_regular'} {p})" for _, p in progs for a in analyses]
+        answers = _ask_driver(reqs) if reqs else []
+        k = 0
+        theories = []   # (text, with, list of formula sexps or None)
+        for t, p in progs:
+            for w in withs:
+                a = answers[k]; k += 1
+                if a.startswith("(some "):
+                    a = a[6:-1]
+                if a in ("none", "(none)"):
+                    theories.append((t, w, None))
+                else:
+                    v = sx.parse(a)
+                    theories.append((t, w, [sx.dump(f) for f in v] if isinstance(v, list) else None))
+        verdicts = []
+        for t, p in progs:
+            for an in analyses:
+                verdicts.append((t, an, answers[k].strip())); k += 1
+        flat = [f for _, _, fs in theories if fs for f in fs]
+        printed = _ask_driver([f"(print_formula {f})" for f in flat]) if flat else []
+        pi = 0
+        f_in = work / "in.lp"
+        for t, w, fs in theories:
+            f_in.write_text(t if t.endswith("\n") else t + "\n")
+            pr = subprocess.run([str(ANTHEM), "translate", "--with", w, str(f_in)], stdout=subprocess.PIPE, stderr=subprocess.PIPE, timeout=120, env=dict(os.environ, RUST_BACKTRACE="0"))
+            got = pr.stdout.decode("utf-8", "replace")
+            if fs is None:
+                if pr.returncode == 0:
+                    failures.append({"what": f"translate --with {w}: the model refuses this program (not regular), the command line translated it", "program": t, "command_line": got[:1500]})
+                else:
+                    n_ok += 1
+                continue
+            want = "".join(sx.parse(printed[pi + j])[1] + ".\n" for j in range(len(fs)))
+            pi += len(fs)
+            if pr.returncode != 0:
+                failures.append({"what": f"translate --with {w} fails on a program the model translates", "program": t, "stderr": pr.stderr.decode("utf-8", "replace")[-500:]})
+            elif got != want:
+                failures.append({"what": f"translate --with {w}: output differs from the model's translation", "program": t, "command_line": got[:2000], "model": want[:2000]})
+            else:
+                n_ok += 1
+                if len(samples) < 2:
+                    samples.append(f"translate --with {w} on {len(t)} bytes -> {len(fs)} formulas, text identical to the model's")
+        for t, an, want in verdicts:
+            f_in.write_text(t if t.endswith("\n") else t + "\n")
+            pr = subprocess.run([str(ANTHEM), "analyze", "--property", an, str(f_in)], stdout=subprocess.PIPE, stderr=subprocess.PIPE, timeout=120, env=dict(os.environ, RUST_BACKTRACE="0"))
+            got = pr.stdout.decode("utf-8", "replace").strip()
+            if pr.returncode != 0 or got != want:
+                failures.append({"what": f"analyze --property {an}: {got!r} (exit {pr.returncode}), the model says {want!r}", "program": t})
+            else:
+                n_ok += 1
+    finally:
+        shutil.rmtree(work, ignore_errors=True)
+    total = n_ok + len(failures)
+    return {"evaluations": total, "distinct_nontrivial": n_ok, "samples": samples, "cli_runs": total, "cli_runs_agreeing": n_ok}, failures
+
+
+def glue_theory(what, n_limit, seed):
+    """`anthem translate --with gamma|completion FILE` and `anthem simplify --portfolio P --strategy S FILE` on theory files
+    (corpus/theories.txt, and every formula of corpus/formulas.txt and corpus/simplify.txt as a one-formula theory) against
+    the model (text -> model parser -> gamma / completion / simplification -> model printer).  what: "gamma", "completion" or
+    "simplify".  Returns (stats, failures)."""
+    import sexp as sx
+    rng = random.Random(seed * 31 + len(what))
+    work = Path(tempfile.mkdtemp(prefix="glue_th_", dir=str(VERIF / "work")))
+    failures, samples, n_ok = [], [], 0
+    rd = lambda f: [l.strip() for l in (VERIF / "corpus" / f).read_text().splitlines() if l.strip() and not l.startswith("#")]
+    try:
+        texts = rd("theories.txt") + [l + "." for l in rd("formulas.txt") + rd("simplify.txt")]
+        if len(texts) > n_limit:
+            texts = rd("theories.txt") + rng.sample(texts[len(rd("theories.txt")):], max(0, n_limit - len(rd("theories.txt"))))
+        parsed = _ask_driver([sx.dump(["fol_parse", "theory", ("s", t)]) for t in texts])
+        theories = []
+        for t, a in zip(texts, parsed):
+            if a.startswith("(ok "):
+                v = sx.parse(a)
+                theories.append((t, [sx.dump(f) for f in v[1]]))
+        runs = []   # (text, cmd, list of requests producing formulas, or a completion request)
+        for t, fs in theories:
+            if what == "gamma":
+                runs.append((t, ["translate", "--with", "gamma"], [f"(gamma {f})" for f in fs]))
+            elif what == "completion":
+                runs.append((t, ["translate", "--with", "completion"], [f"(completion ({' '.join(fs)}) ())"]))
+            else:
+                for pf in ("classic", "ht", "intuitionistic"):
+                    for st in ("shallow", "recursive", "fixpoint"):
+                        if len(theories) * 9 > n_limit * 3 and rng.random() > 0.34:
+                            continue
+                        runs.append((t, ["simplify", "--portfolio", pf, "--strategy", st], [f"(simplify {pf} {st} 256 {f})" for f in fs]))
+        answers = _ask_driver([r for _, _, rs in runs for r in rs])
+        k = 0
+        expected = []
+        for t, cmd, rs in runs:
+            outs = answers[k:k + len(rs)]; k += len(rs)
+            if what == "completion":
+                a = outs[0]
+                expected.append(None if not a.startswith("(some ") else [sx.dump(f) for f in sx.parse(a)[1]])
+            elif what == "simplify":
+                expected.append([a[4:-1] for a in outs] if all(a.startswith("(ok ") for a in outs) else "skip")
+            else:
+                expected.append(list(outs))
+        flat = [f for e in expected if isinstance(e, list) for f in e]
+        printed = _ask_driver([f"(print_formula {f})" for f in flat]) if flat else []
+        pi = 0
+        f_in = work / "in.spec"
+        for (t, cmd, rs), e in zip(runs, expected):
+            if e == "skip":
+                continue
+            f_in.write_text(t + "\n")
+            pr = subprocess.run([str(ANTHEM)] + cmd + [str(f_in)], stdout=subprocess.PIPE, stderr=subprocess.PIPE, timeout=300, env=dict(os.environ, RUST_BACKTRACE="0"))
+            got = pr.stdout.decode("utf-8", "replace")
+            name = " ".join(cmd)
+            if e is None:
+                if pr.returncode == 0:
+                    failures.append({"what": f"{name}: the model refuses this theory (not completable), the command line completed it", "theory": t, "command_line": got[:1500]})
+                else:
+                    n_ok += 1
+                continue
+            want = "".join(sx.parse(printed[pi + j])[1] + ".\n" for j in range(len(e)))
+            pi += len(e)
+            if pr.returncode != 0:
+                failures.append({"what": f"{name} fails on a theory the model handles", "theory": t, "stderr": pr.stderr.decode("utf-8", "replace")[-400:]})
+            elif got != want:
+                failures.append({"what": f"{name}: output differs from the model's", "theory": t, "command_line": got[:2000], "model": want[:2000]})
+            else:
+                n_ok += 1
+                if len(samples) < 2:
+                    samples.append(f"{name} on {len(t)} bytes -> text identical to the model's")
+    finally:
+        shutil.rmtree(work, ignore_errors=True)
+    total = n_ok + len(failures)
+    return {"evaluations": total, "distinct_nontrivial": n_ok, "samples": samples, "cli_runs": total, "cli_runs_agreeing": n_ok}, failures
